@@ -7,6 +7,8 @@ Domain   generated worlds with 0-4 prior generations, flat and nested (so that c
          before every operation (= after the previous one) and, for writes, with only the first half of the bytes
          applied.  At the crash point a BaseException is raised and every later mutation is refused, so the disk is
          what kill -9 would leave if completed operations are durable and a file holds a prefix of what was written.
+         A second variant delivers KeyboardInterrupt at the same points and lets the tool's own clean-up code run
+         (Ctrl-C / SIGTERM), so that a well-meant rollback handler is exercised as well.
 Oracle   after each crash: (1) every previously committed manifest byte-identical; (2) every chain file parses with
          the independent reader and still lists every previously committed generation with its digest; (3) info,
          verify and create run next end with a documented exit code (0/10/11/21/30) - never an uncaught exception,
@@ -105,7 +107,7 @@ def run_case(scn, ctx):
                     return hist.apply_step(w, scn, final, frozen=FROZEN)
                 with fs:
                     return hist.apply_step(w, scn, final, frozen=FROZEN)
-            except fsmon.CrashNow:
+            except (fsmon.CrashNow, KeyboardInterrupt):
                 return None
 
         # reference run, uninstrumented
@@ -129,6 +131,8 @@ def run_case(scn, ctx):
         for k, (kind, path, n) in enumerate(ops):
             if kind in ("mkdir", "open", "write", "rename", "replace", "remove", "unlink"):
                 points.append((k, "before"))
+                if kind != "write" or k % 3 == 0:
+                    points.append((k, "interrupt"))
             if kind == "write" and n >= 2:
                 points.append((k, "half"))
         points.append((len(ops), "before"))  # nothing left to do: the complete run
@@ -147,11 +151,13 @@ def run_case(scn, ctx):
             ctx.event("crash_points")
             if variant == "half":
                 ctx.event("crash_in_write")
+            if variant == "interrupt":
+                ctx.event("interrupt_points")
             done_opens = [p for kind, p, n in ops[:k] if kind == "open"]
             closed_chains = [p for kind, p, n in ops[:k] if (kind == "close" and p.endswith(CHAIN)) or (kind == "replace" and p.endswith(CHAIN + ".partial"))]
             if nested_run and closed_chains and len(closed_chains) < len(commit_order):
                 ctx.event("crash_between_child_and_parent")
-            label = "crash %s op %d/%d %r" % (variant, k, len(ops), ops[k] if k < len(ops) else "end")
+            label = "crash %s op %d/%d %r" % ({"before": "kill before", "half": "kill half-way through", "interrupt": "interrupt (clean-up may run) at"}[variant], k, len(ops), ops[k] if k < len(ops) else "end")
             # which history is in its first-generation window at this point?
             fgw = False
             for h in new_roots:
